@@ -165,6 +165,7 @@ class Client(base_client.BaseClient):
                     break
             if set(self.namespaces) != set(self.connection_namespaces):
                 self.disconnect()
+                self.namespaces = {}
                 raise exceptions.ConnectionError(
                     'One or more namespaces failed to connect')
 
